@@ -23,6 +23,11 @@ PRELUDE = [
     "(define (mk-counters-b n acc) (if (= n 0) acc (mk-counters-a (- n 1) (cons (lambda () (set! n (+ n 1)) n) acc))))",
     "(define (mk-counters-nt n) (if (= n 0) '() (cons (lambda () (set! n (+ n 1)) n) (mk-counters-nt (- n 1)))))",
     "(define (mk-cells k v acc) (if (= k 0) acc (mk-cells (- k 1) (make-vector 1 k) (cons (lambda () v) acc))))",
+    # generators WITHOUT parameters whose state is an internal definition of the call (not a let): each call has its own
+    "(define (mk-counter-d) (define n 0) (lambda () (set! n (+ n 1)) n))",
+    "(define mk-counter-b (lambda () (begin (define n 0) (lambda () (set! n (+ n 1)) n))))",
+    "(define (mk-vec-d) (define v (vector 0 0)) v)",
+    "(define (local-g) (define g 7) (set! g (+ g 1)) g)",
     "(define g 0)",
     "(define (bump-g!) (set! g (+ g 1)) g)",
     "(define (shadow-g) (let ((g 100)) (set! g (+ g 1)) g))",
@@ -70,7 +75,8 @@ class Sim:
         ops += ["literal-set", "shadow", "g-read"]
         op = r.choice(ops)
         if op == "counter-new":
-            n = self.fresh("c"); self.counters[n] = [0]; self.emit("(define %s (mk-counter))" % n, "N")
+            n = self.fresh("c"); self.counters[n] = [0]
+            self.emit("(define %s (%s))" % (n, r.choice(["mk-counter", "mk-counter-d", "mk-counter-d", "mk-counter-b"])), "N")
         elif op == "counters-batch":
             k = r.randrange(2, 5); L = self.fresh("b")
             which = r.choice(["mk-counters %d '()", "mk-counters-a %d '()", "mk-counters-nt %d"])
@@ -116,9 +122,12 @@ class Sim:
             items = [r.choice([0, 0, 1]) for _ in range(r.choice([1, 2, 2, 3]))]
             self.vecs[n] = list(items)
             form = r.choice(["(define %s (vector %s))" % (n, " ".join(map(str, items))),
-                             "(define %s (make-vector %d %d))" % (n, len(items), items[0])])
+                             "(define %s (make-vector %d %d))" % (n, len(items), items[0]),
+                             "(define %s (mk-vec-d))" % n])
             if form.startswith("(define %s (make-vector" % n):
                 self.vecs[n] = [items[0]] * len(items)
+            elif "mk-vec-d" in form:
+                self.vecs[n] = [0, 0]
             self.emit(form, "N")
         elif op == "alias":
             a = r.choice(list(self.vecs)); n = self.fresh("w"); self.vecs[n] = self.vecs[a]
@@ -177,7 +186,10 @@ class Sim:
         elif op == "bump":
             self.g += 1; self.emit("(bump-g!)", "V i:%d" % self.g)
         elif op == "shadow":
-            self.emit("(shadow-g)", "V i:101")
+            if r.random() < 0.5:
+                self.emit("(shadow-g)", "V i:101")
+            else:
+                self.emit("(local-g)", "V i:8")     # an internal definition of the call, not the global g
         elif op == "g-read":
             self.emit("g", "V i:%d" % self.g)
 
